@@ -137,6 +137,12 @@ class StmtMixin:
     def s_Assert(self, st, fr):
         ex = self.ex
         mode = ex.ghost.get('assert_mode', 'oblige')
+        src = ast.unparse(st.test)
+        for pat in ex.ghost.get('assert_assume', ()):
+            if pat in src:
+                # an assertion about the environment (interpreter / pickle protocol) that the lemma takes as given: listed in the evidence
+                ex.notes_abstracted.add(f'assumed repository assert: {src[:90]}')
+                return
         c = self.eval(st.test, fr)
         t = self.truth(c)
         if mode == 'fork':
